@@ -7,6 +7,8 @@ import (
 	_ "verif/internal/c07"
 	_ "verif/internal/c08"
 	_ "verif/internal/c09"
+	_ "verif/internal/c10"
+	_ "verif/internal/c11"
 	_ "verif/internal/c12"
 	_ "verif/internal/c13"
 	_ "verif/internal/c14"
